@@ -50,7 +50,8 @@ def shapes(tier, seed):
                 c[j] = max(c[j] - 1, 0)
                 cand.add(tuple(c))
         for lens in sorted(cand):
-            for token in ((False, True) if lens == base else (False,)):
+            # token: absent, two symbolic bytes, the empty string (Some("") is a token, not the absence of one), one byte
+            for token in ((False, True, 0, 1) if lens == base else (False,)):
                 out.append(('five', Lr, Ls, lens, token))
         # other arities
         for k in (1, 2, 3, 4, 6, 7):
@@ -87,7 +88,7 @@ def run_shape(prog, shape, tier, seed, res):
                 cred.append(Int('u8', 0x2F))
             cred += p
         key = sym_bytes(ctx, 'key', 32)
-        tok = sym_bytes(ctx, 'tok', 2) if token else None
+        tok = None if token is False else sym_bytes(ctx, 'tok', 2 if token is True else token)
         # reference signature for the *presented* scope under the provider's key
         o = oracle_of(m)
         scope = cred[len(parts[0]) + 1:] if len(parts) > 1 else []
